@@ -20,6 +20,7 @@ RULE = (
     "layouts; histograms: random weights incl. negative and zero.  non-trivial = grid with a zero/flat segment or >=2 dims or "
     "weighted; distinct = case index + layout."
 )
+RULE += '  Also: ARGenerator with a user-supplied bound (too low / right / too high / none; Python and NumPy scalars); single-precision MeV-scale data for the adaptive bins.'
 ASSUMPTIONS = [
     "statistical statements at per-test alpha = 1e-8/(tests in the shard)",
     "a rejection round that accepts no event is skipped by the weight monitor (the library cannot evaluate an amplitude on 0 events)",
